@@ -273,11 +273,15 @@ ResolvedMinRt(i) ==
   LET j == JobOf(D[i].p) IN
     IF D[i].mdact = "preempt" THEN ResolveUp(J(j).queue, "preempt")
     ELSE IF D[i].pre \in Jobs THEN ResolveUp(StepDown(J(j).queue, J(D[i].pre).queue), "reclaim") ELSE 0
+\* pods of j still active when only the evictions of one kind (reclaim / preempt) are applied: the
+\* protection of one kind does not restrict the other
+ActiveAfterKind(j, kind) ==
+  Cardinality({p \in PodsOf(j) : ActiveAtStart(p) /\ ~\E x \in Dec : EvictOK(x) /\ D[x].p = p /\ D[x].mdact = kind})
 C06_MinRuntime ==
   (AtCycleEnd /\ ~failed /\ cyc = 1) => \A i \in Dec : (IsVictimEvict(i) /\ D[i].mdact \in {"reclaim", "preempt"}) =>
      LET j == JobOf(D[i].p) IN
        (ResolvedMinRt(i) > 0 /\ J(j).lastStart >= 0 /\ J(j).lastStart < ResolvedMinRt(i))
-         => ActiveAfter(j) >= J(j).min
+         => ActiveAfterKind(j, D[i].mdact) >= J(j).min
 
 (***************************************************************************)
 (* C07 - reclaim protects deserved quota and keeps the reclaimer within its *)
